@@ -50,6 +50,8 @@ type State struct {
 	loopSnap map[string][]Term // variant snapshots per loop key
 	nAssume  int
 	guards   map[string]guardInfo
+	lockSnapNames map[string][]string
+	loopFrame     map[string][]string
 	sink     *[]Term // specification views: facts produced by heap reads are collected here
 }
 
@@ -84,6 +86,14 @@ func (st *State) clone() *State {
 		n.loopSnap[k] = v
 	}
 	n.nAssume = st.nAssume
+	n.loopFrame = make(map[string][]string, len(st.loopFrame))
+	for k, v := range st.loopFrame {
+		n.loopFrame[k] = v
+	}
+	n.lockSnapNames = make(map[string][]string, len(st.lockSnapNames))
+	for k, v := range st.lockSnapNames {
+		n.lockSnapNames[k] = v
+	}
 	if st.guards != nil {
 		n.guards = make(map[string]guardInfo, len(st.guards))
 		for k, v := range st.guards {
@@ -137,6 +147,7 @@ func (st *State) initHeap(name string, sort Sort) Term {
 	if !e.declared[n] {
 		e.declare(n, sort)
 		t := Term{n, sort}
+		st.x.arrOf[n] = name
 		switch {
 		case strings.HasSuffix(name, ".w") && strings.HasPrefix(name, "L."):
 			// this call holds no lock on entry
@@ -157,6 +168,31 @@ func (st *State) initHeap(name string, sort Sort) Term {
 // closure: every reference stored in heap array arr is null or allocated (w.r.t. alloc).
 // Returns "" when the array holds no references.
 func (st *State) closure(arr Term, alloc Term) string {
+	c := st.closure0(arr, alloc)
+	if name, ok := st.x.arrOf[arr.S]; ok && st.x.closedIface[name] {
+		// values of a closed-world (unexported) interface type never hold a typed nil pointer:
+		// checked at every conversion to such an interface, assumed for every heap location
+		is, es := splitArr(arr.Sort)
+		var extra string
+		if es == SIface {
+			extra = fmt.Sprintf("(forall ((r!t %s)) (! (=> ((_ is iref) (select %s r!t)) (not (= (pref (select %s r!t)) null))) :pattern ((select %s r!t))))", is, arr.S, arr.S, arr.S)
+		} else if es.IsArr() {
+			ks, vs := splitArr(es)
+			if vs == SIface {
+				extra = fmt.Sprintf("(forall ((r!t %s) (k!t %s)) (! (=> ((_ is iref) (select (select %s r!t) k!t)) (not (= (pref (select (select %s r!t) k!t)) null))) :pattern ((select (select %s r!t) k!t))))", is, ks, arr.S, arr.S, arr.S)
+			}
+		}
+		if extra != "" {
+			if c == "" {
+				return extra
+			}
+			return "(and " + c + " " + extra + ")"
+		}
+	}
+	return c
+}
+
+func (st *State) closure0(arr Term, alloc Term) string {
 	is, es := splitArr(arr.Sort)
 	switch {
 	case es == SRef:
@@ -197,6 +233,7 @@ func (st *State) hhavoc(name string) {
 		return
 	}
 	t := st.x.enc.Fresh(name+"@h", sort)
+	st.x.arrOf[t.S] = name
 	st.heap[name] = t
 	if name != "alloc" && !strings.HasPrefix(name, "L.") {
 		if c := st.closure(t, st.hget("alloc", SArr(SRef, SBool))); c != "" {
@@ -267,6 +304,24 @@ func isStructType(t types.Type) bool {
 }
 
 // loadField reads field f (of struct type structT) of the object at ref.
+func (st *State) noteClosed(name string, t types.Type) {
+	if isClosedIface(t) {
+		st.x.closedIface[name] = true
+	}
+}
+
+// isClosedIface: unexported interface type declared in the module (closed world of implementers).
+func isClosedIface(t types.Type) bool {
+	n, ok := types.Unalias(t).(*types.Named)
+	if !ok || n.Obj().Exported() || n.Obj().Pkg() == nil {
+		return false
+	}
+	if _, ok := n.Underlying().(*types.Interface); !ok {
+		return false
+	}
+	return strings.HasPrefix(n.Obj().Pkg().Path(), "github.com/avfs/avfs")
+}
+
 func (st *State) loadField(structT types.Type, f *types.Var, ref Term) Val {
 	ft := f.Type()
 	if isMutexType(ft) {
@@ -276,6 +331,7 @@ func (st *State) loadField(structT types.Type, f *types.Var, ref Term) Val {
 		return st.loadStruct(ft, st.subRef(structT, f, ref))
 	}
 	base := fieldArrName(structT, f)
+	st.noteClosed(base, ft)
 	sorts := st.x.enc.sortsOf(ft)
 	var cs []Term
 	for k, s := range sorts {
@@ -292,6 +348,9 @@ func (st *State) loadField(structT types.Type, f *types.Var, ref Term) Val {
 // type ranges and "references found in the heap are allocated".
 func (st *State) assumeLoaded(t types.Type, v Val) {
 	st.assumeAll(st.x.enc.typeInv(t, v))
+	if isClosedIface(t) && v.K == VTerm && v.T.Sort == SIface {
+		st.assume(Implies(app(SBool, "(_ is iref)", v.T), Not(Eq(app(SRef, "pref", v.T), TNull))))
+	}
 	switch types.Unalias(t).Underlying().(type) {
 	case *types.Pointer, *types.Map:
 		if v.K == VTerm && v.T.Sort == SRef {
@@ -399,6 +458,7 @@ func (st *State) newObject(hint string) Term {
 func elemArrName(elem types.Type) string { return "E." + typeName(elem) }
 
 func (st *State) elemArrs(elem types.Type) ([]string, []Sort) {
+	st.noteClosed(elemArrName(elem), elem)
 	sorts := st.x.enc.sortsOf(elem)
 	var names []string
 	var as []Sort
@@ -442,6 +502,7 @@ func (st *State) mapArrs(m *types.Map) (dom string, domS Sort, vals []string, va
 		panic("map key with several components: " + m.String())
 	}
 	n := mapName(m)
+	st.noteClosed("MV."+n, m.Elem())
 	dom = "MD." + n
 	domS = SArr(SRef, SArr(ks[0], SBool))
 	for k, s := range st.x.enc.sortsOf(m.Elem()) {
